@@ -59,7 +59,8 @@ class Compiled:
 
 PRISTINE_RUNNER = r'''
 import sys, json, resource, time
-sys.path.insert(0, '/repo')
+import os
+sys.path.insert(0, os.environ.get('VERIF_REPO', '/repo'))
 sys.path.insert(0, %(verif)r)
 req = json.load(sys.stdin)
 if req.get('cpu_s'):
